@@ -111,7 +111,13 @@ def literal_rules(prog, R, RID1, RID4):
                        else show(args[idx])))
     R.floor("string->integer conversions under parse_numeric", conv, 1)
 
-    # ---------------------------------------------------------- R17.4
+    strtol_range_rule(prog, R, RID4, reach, floor=1)
+
+
+def strtol_range_rule(prog, R, RID4, reach, floor=0):
+    """strtol saturates on overflow: its result may only be used where
+    errno != ERANGE has been established (and errno was cleared before); a
+    result that is used directly (not stored) cannot be checked at all."""
     # strtol saturates on overflow: its result may only be used where
     # errno != ERANGE has been established (and errno was cleared before)
     from selib import sym as _sym
@@ -175,5 +181,34 @@ def literal_rules(prog, R, RID1, RID4):
                             "without clearing errno first" if not cleared
                             else "where errno != ERANGE has not been "
                                  "established (line %s)" % bad_use[0]))
-    R.floor("strtol results checked for range", nrange, 1)
+    # results used directly, without being stored first
+    STR = ("strtol", "strtoll", "strtoul", "strtoull")
+    for f in reach:
+        stored = set()
+        for d in walk(f["body"]):
+            if d.get("k") == "decl":
+                for v in d.get("v", ()):
+                    i = v.get("i")
+                    while i is not None and i.get("k") == "cast":
+                        i = i["a"][0]
+                    if i is not None and i.get("k") == "call" \
+                            and i.get("n") in STR:
+                        stored.add(id(i))
+        for n in walk(f["body"]):
+            if n.get("k") == "call" and n.get("n") in STR \
+                    and id(n) not in stored:
+                nrange += 1
+                key = "%s:direct@%s" % (short(f["qn"]), n.get("l"))
+                R.instance(RID4, key, sample={"call": show(n)[:60],
+                                              "stored": False})
+                R.violation(
+                    RID4, key, prog.loc(f, n.get("l")),
+                    "%s uses the value of `%s` directly: strtol saturates "
+                    "at LONG_MAX/LONG_MIN on overflow and without storing "
+                    "the result errno cannot be consulted, so a value "
+                    "outside the range of long silently becomes another "
+                    "number" % (short(f["qn"]), show(n)[:60]))
+    if floor:
+        R.floor("strtol results checked for range", nrange, floor)
+    return nrange
 
